@@ -13,7 +13,7 @@ from ._pairs import compare_all, table_state_keys, V
 
 PID = "C15"
 LEVEL = "model_checking"
-WITNESSES = ["permuted_columns", "extra_column", "reindexed", "extra_rows", "thermal_crop", "combined_transformations"]
+WITNESSES = ["permuted_columns", "extra_column", "reindexed", "extra_rows", "thermal_crop", "combined_transformations", "season_calendar_checked_by_name", "nights_below_base_temperature"]
 NONTRIVIAL = WITNESSES
 
 COLS = ["MinTemp", "MaxTemp", "Precipitation", "ReferenceET", "Date"]
@@ -35,6 +35,7 @@ def _thermal(start_on_planting=False):
 
 
 def scenarios(tier, seed=0):
+    yield from byname_scenarios(tier)
     perms = list(itertools.permutations(range(5)))
     ident = tuple(range(5))
     if tier == "quick":
@@ -54,6 +55,68 @@ def scenarios(tier, seed=0):
         for ck in CROPS:
             for p, e, ix, r in itertools.product(perms, EXTRA, INDEX, ROWS):
                 yield {"crop": ck, "perm": list(p), "extra": e, "index": ix, "rows": r}
+
+
+def byname_scenarios(tier):
+    for meth in (1, 2, 3):
+        for word in ("coolnights", "hot"):
+            for perm in ([0, 1, 2, 3, 4], [1, 0, 3, 2, 4], [4, 3, 2, 1, 0]):
+                yield {"kind": "byname", "method": meth, "word": word, "perm": perm, "extra": "front", "index": "shift1000", "rows": "lead400"}
+
+
+def run_byname(scn):
+    """Semantic binding: the thermal calendar of EVERY season must be the one computed from the columns NAMED MinTemp / MaxTemp on the
+    dates from that season's planting date on (layout-invariance alone cannot see a consistent internal mix-up of two variables)."""
+    from ..refmodels import ref_gdd
+
+    res = empty_result()
+    spec = A.to_spec(A._b(crop="maize.2", win={"pre": 3, "seasons": 3}, word=scn["word"]))
+    spec["crop"] = {"name": "MaizeGDD", "planting": "05/01", "harvest": "09/15", "scale": None, "gddscale": 0.2, "kw": {"GDDmethod": scn["method"]}}
+    spec["end"] = "2003/10/15"
+    p = copy.deepcopy(spec)
+    p["weather"]["lead"] = 400
+    canonical = S.make_weather(p)
+    df = transform(canonical, scn, p)
+    ent = S.make_entities(spec)
+    ent["weather_df"] = df
+    t, a, m = run_plain(spec, entities=ent)
+    res["evals"] = 1
+    if a:
+        res["aborted"] = a
+        res["violations"].append(V("equivalent-weather-table-raises", None, {"exc": a.get("exc_type"), "origin": a.get("exc_origin"), "msg": (a.get("exc_msg") or "")[:160]}, "runs", sig=["raise-byname", a.get("exc_origin")]))
+        return res
+    res["states"], res["transitions"] = table_state_keys(t)
+    ck = m._clock_struct
+    by_date = canonical.set_index("Date")
+    crops = m._param_struct.Seasonal_Crop_List
+    for k, pd_ in enumerate(ck.planting_dates):
+        c = crops[k]
+        sub = by_date.loc[pd.Timestamp(pd_): pd.Timestamp(ck.simulation_end_date)]
+        g = np.array([ref_gdd(int(scn["method"]), float(c.Tupp), float(c.Tbase), float(tx), float(tn)) for tn, tx in zip(sub["MinTemp"].values, sub["MaxTemp"].values)])
+        cum = np.cumsum(g)
+        exp = {"MaturityCD": int(np.argmax(cum > float(c.Maturity)) + 1), "HIstartCD": int(np.argmax(cum > float(c.HIstart)) + 1),
+               "MaxCanopyCD": int(np.argmax(cum > float(c.MaxCanopy)) + 1)}
+        got = {n: int(getattr(c, n)) for n in exp}
+        if got != exp:
+            res["violations"].append(V("season-calendar-from-named-columns", None, {"season": k, "model": got}, {"from MinTemp/MaxTemp by name and date": exp}, method=scn["method"], sig=["byname", k > 0]))
+            break
+        res["witness"]["season_calendar_checked_by_name"] = res["witness"].get("season_calendar_checked_by_name", 0) + 1
+        if (sub["MinTemp"].values < float(c.Tbase)).any():
+            res["witness"]["nights_below_base_temperature"] = 1
+    # the daily degree days of the time step, too
+    gd = t["growth"]
+    from ..driver import GX
+    rows = np.where(t["storage"][:, 1] == 1)[0]
+    start = pd.Timestamp(ck.simulation_start_date)
+    for r in rows[:: max(1, len(rows) // 60)]:
+        day = start + pd.Timedelta(days=int(r))
+        rec = by_date.loc[day]
+        c = crops[int(gd[r, GX["season_counter"]])]
+        e = ref_gdd(int(scn["method"]), float(c.Tupp), float(c.Tbase), float(rec["MaxTemp"]), float(rec["MinTemp"]))
+        if abs(float(gd[r, GX["gdd"]]) - e) > 1e-9:
+            res["violations"].append(V("daily-degree-days-from-named-columns", int(r), {"gdd": float(gd[r, GX["gdd"]])}, {"from the record of that date, by name": e}, method=scn["method"], sig=["byname-daily"]))
+            break
+    return res
 
 
 def transform(df, scn, spec):
@@ -96,6 +159,8 @@ def base_for(ck):
 
 
 def run(scn):
+    if scn.get("kind") == "byname":
+        return run_byname(scn)
     res = empty_result()
     spec, tb, dg = base_for(scn["crop"])
     p = copy.deepcopy(spec)
@@ -148,7 +213,7 @@ def describe(tier):
         "rule": "ALL 120 permutations of the five required columns; unrelated extra columns at the front / middle / end, and one with NaN gaps; index {RangeIndex, shifted by 1000, reversed labels, "
                 "string labels, Date index}; 400 extra leading / trailing rows / both, also with a gap of missing days, a duplicated row or dropped-but-not-re-indexed rows outside the window; " + ("each factor alone against the identity plus three combined cases" if tier == "quick" else "the FULL product (19200 tables)")
                 + "; x {calendar-day crop with threshold irrigation; thermal-time crop started before / on its planting date; calendar crop converted to thermal time (SwitchGDD=1)} over 2 seasons. "
-                "Oracle: all four tables bitwise equal to the run fed with the canonical table.",
+                "Oracle: all four tables bitwise equal to the run fed with the canonical table; plus a by-name oracle: for a thermal crop under degree-day methods 1-3 and a word with nights below the base temperature, the thermal calendar of EVERY season and the daily degree days must equal a reference computed from the columns named MinTemp/MaxTemp on the dates concerned.",
         "bound": "120 permutations complete; " + ("factors alone" if tier == "quick" else "full product 120 x 5 x 5 x 8") + " x 2 crops",
         "exhaustive": True,
         "witnesses": WITNESSES,
